@@ -73,6 +73,14 @@ def _folds(n, tier):
         for a in itertools.combinations(range(6), 3):
             b = [i for i in range(6) if i not in a]
             out.append(dict(kind="explicit", train=list(a), test=b))
+        # explicit folds need not cover every sample: 3 + 2 of the 6 samples (one left out)
+        for i, a in enumerate(itertools.combinations(range(6), 3)):
+            rest = [j for j in range(6) if j not in a]
+            for b in itertools.combinations(rest, 2):
+                if tier == "quick" and (i + sum(b)) % 4:
+                    continue
+                out.append(dict(kind="explicit", train=list(a), test=list(b)))
+                out.append(dict(kind="explicit", train=list(b) + [a[0]], test=list(a[1:])))
     return out
 
 
